@@ -32,10 +32,14 @@ def TyWF : Ty → Bool
   | .hash k v lo hi => (TyWF k && TyWF v) && ((minInt ≤ lo && lo ≤ maxInt) && (minInt ≤ hi && hi ≤ maxInt))
   | .like b _ => TyWF b
   | .callable h ts => !h || (TyWFL ts && decide ((ts.length : Int) ≤ maxInt))   -- the parameter Tuple: a Go slice length is an int
+  | .struct es => TyWFS es && decide (es.length ≤ 9223372036854775807)
   | _ => true
 def TyWFL : List Ty → Bool
   | [] => true
   | t :: ts => TyWF t && TyWFL ts
+def TyWFS : List (Bytes × Bool × Ty) → Bool
+  | [] => true
+  | (_, _, v) :: es => TyWF v && TyWFS es
 end
 
 /-! ### `a.Equals(b)` computed on `a` and computed on `b` agree -/
@@ -116,6 +120,19 @@ theorem tyEq_eq_R : ∀ a b : Ty, tyEq a b = tyEqR a b
       rename_i h' us
       rw [tyEqL_eq_R ts us, beq_swap ts.length us.length, beq_swap h h']
   | .runtime rt n p, b => by cases b <;> simp [tyEq, tyEqR, beq_swap rt, beq_swap n, beq_swap p]
+  | .struct es, b => by
+      cases b <;> simp only [tyEq, tyEqR]
+      rename_i fs
+      rw [tyEqS_eq_R es fs, beq_swap es.length fs.length]
+theorem tyEqS_eq_R : ∀ es fs : List (Bytes × Bool × Ty), tyEqS es fs = tyEqRS es fs
+  | [], _ => by simp [tyEqS, tyEqRS]
+  | (n, o, v) :: es, fs => by
+      cases fs with
+      | nil => simp [tyEqS, tyEqRS]
+      | cons f fs =>
+        obtain ⟨n', o', v'⟩ := f
+        simp only [tyEqS, tyEqRS]
+        rw [tyEq_eq_R v v', tyEqS_eq_R es fs, beq_swap n n', beq_swap o o']
 theorem tyEqL_eq_R : ∀ ts us : List Ty, tyEqL ts us = tyEqRL ts us
   | [], _ => by simp [tyEqL, tyEqRL]
   | t :: ts, us => by
@@ -188,6 +205,26 @@ theorem tyEqR_swap : ∀ a b : Ty, tyEqR a b = tyEq b a
             have hl' : us.length = ts.length := by simpa using hl
             rw [tyEqRL_swap ts us hl'.symm]
   | .runtime rt n p, b => by cases b <;> simp [tyEq, tyEqR]
+  | .struct es, b => by
+      cases b <;> simp only [tyEq, tyEqR]
+      rename_i fs
+      cases h : (fs.length == es.length)
+      · simp
+      · simp only [Bool.true_and]
+        have hl : fs.length = es.length := by simpa using h
+        rw [tyEqRS_swap es fs hl.symm]
+theorem tyEqRS_swap : ∀ es fs : List (Bytes × Bool × Ty), es.length = fs.length → tyEqRS es fs = tyEqS fs es
+  | [], fs => fun h => by
+      cases fs with
+      | nil => simp [tyEqS, tyEqRS]
+      | cons f fs => simp at h
+  | (n, o, v) :: es, fs => fun h => by
+      cases fs with
+      | nil => simp at h
+      | cons f fs =>
+        obtain ⟨n', o', v'⟩ := f
+        simp only [tyEqS, tyEqRS]
+        rw [tyEqR_swap v v', tyEqRS_swap es fs (by simpa using h)]
 theorem tyEqRL_swap : ∀ ts us : List Ty, ts.length = us.length → tyEqRL ts us = tyEqL us ts
   | [], us => fun h => by
       cases us with
@@ -297,6 +334,14 @@ theorem tyEq_refl : ∀ a : Ty, TyWF a = true → tyEq a a = true
       · simp only [TyWF, Bool.not_true, Bool.false_or, Bool.and_eq_true] at h
         simp [tyEq, tyEqL_refl ts h.1]
   | .runtime _ _ _, _ => by simp [tyEq]
+  | .struct es, h => by
+      simp only [TyWF, Bool.and_eq_true] at h
+      simp [tyEq, tyEqS_refl es h.1]
+theorem tyEqS_refl : ∀ es : List (Bytes × Bool × Ty), TyWFS es = true → tyEqS es es = true
+  | [], _ => by simp [tyEqS]
+  | (n, o, v) :: es, h => by
+      simp only [TyWFS, Bool.and_eq_true] at h
+      simp [tyEqS, tyEq_refl v h.1, tyEqS_refl es h.2]
 theorem tyEq_refl_all : ∀ ts : List Ty, TyWFL ts = true → ∀ v ∈ ts, tyEq v v = true
   | [], _ => by simp
   | t :: ts, h => by
@@ -436,6 +481,24 @@ theorem tyEq_trans : ∀ a b c : Ty, tyEq a b = true → tyEq b c = true → tyE
       cases b <;> (try (intro h; simp [tyEq] at h; done))
       cases c <;> simp [tyEq]
       intro h1 h2 h3 h4 h5 h6; exact ⟨⟨h1.trans h4, h2.trans h5⟩, h3.trans h6⟩
+  | .struct es, b, c => by
+      cases b <;> (try (intro h; simp [tyEq] at h; done))
+      cases c <;> simp [tyEq]
+      intro h1 h2 h3 h4; exact ⟨h1.trans h3, tyEqS_trans es _ _ h2 h4⟩
+theorem tyEqS_trans : ∀ es fs gs : List (Bytes × Bool × Ty), tyEqS es fs = true → tyEqS fs gs = true → tyEqS es gs = true
+  | [], _, _ => by simp [tyEqS]
+  | (n, o, v) :: es, fs, gs => by
+      cases fs with
+      | nil => simp [tyEqS]
+      | cons f fs =>
+        obtain ⟨n', o', v'⟩ := f
+        cases gs with
+        | nil => simp [tyEqS]
+        | cons g gs =>
+          obtain ⟨n'', o'', v''⟩ := g
+          simp only [tyEqS, Bool.and_eq_true, beq_iff_eq]
+          rintro ⟨⟨⟨e1, e2⟩, h1⟩, h2⟩ ⟨⟨⟨f1, f2⟩, g1⟩, g2⟩
+          exact ⟨⟨⟨e1.trans f1, e2.trans f2⟩, tyEq_trans v _ _ h1 g1⟩, tyEqS_trans es _ _ h2 g2⟩
 theorem tyEq_trans_all : ∀ ts : List Ty, ∀ v ∈ ts, ∀ b c : Ty, tyEq v b = true → tyEq b c = true → tyEq v c = true
   | [], _, h => by simp at h
   | t :: ts, v, hv => by
